@@ -7,6 +7,7 @@
   hash, seed list, access stream, every even `total ≥ 2` (what `next_power_2(..).max(2)` produces).
 -/
 import CachedProofs.Lemmas.Sketch
+import CachedProofs.Lemmas.NextPower2
 
 namespace Cached
 
@@ -271,6 +272,27 @@ theorem C14_ageing (t t' : TinyLFU) (h : Nat) (added : Bool) (hi : t.incrementFo
 theorem C14_reset_halves (fc : FreqCounter) (seed : Nat) (row : Row) (hmem : (seed, row) ∈ fc.rows) (p : Nat) :
     (seed, row.half) ∈ fc.reset.rows ∧ row.half.getAt p = (row.getAt p).map (fun c => c / 2) :=
   ⟨List.mem_map.mpr ⟨(seed, row), hmem, rfl⟩, Row.half_getAt row p⟩
+
+/-- `next_power_2` (with the repaired lower bound 2): always a power of two ≥ 2 (in particular even), and for
+    `1 ≤ c ≤ 2^63` the LEAST power of two not below `c` — proved in the kernel on the 64-bit or-shift cascade. -/
+theorem C14_next_power_of_two (c : Nat) :
+    (∃ j, 1 ≤ j ∧ j ≤ 63 ∧ nextPower2 c = 2 ^ j) ∧ nextPower2 c % 2 = 0 ∧ 2 ≤ nextPower2 c ∧
+    (1 ≤ c → c ≤ 2 ^ 63 → c ≤ nextPower2 c) ∧ (2 ≤ c → c ≤ 2 ^ 63 → nextPower2 c < 2 * c) := by
+  refine ⟨nextPower2_isPow2 c, nextPower2_even c, nextPower2_ge_two c, ?_, ?_⟩
+  · intro h1 h2
+    obtain ⟨_, _, h⟩ := nextPower2_pow2 c h1 h2
+    exact h
+  · intro h1 h2
+    exact nextPower2_lt_double c h1 h2
+
+/-- Every sketch the crate builds (any `counters`, any non-empty seed list — the crate uses four) is well formed,
+    so by `C14_in_bounds` no increment or estimate ever indexes out of bounds (the repaired `counters = 1` defect). -/
+theorem C14_fresh_sketch_wf (counters : Nat) (seeds : List Nat) (hs : seeds ≠ []) :
+    (FreqCounter.new counters seeds).WF := by
+  refine ⟨freqCounter_new_rowsWF counters seeds, ?_⟩
+  simp only [FreqCounter.new]
+  intro h
+  exact hs (List.map_eq_nil_iff.mp h)
 
 /-- Non-vacuity: a concrete sketch is well formed, and the premises of `C14_never_undercounts` are met by a
     concrete run with a false positive and a foreign hash in it. -/
